@@ -11,28 +11,47 @@
 (* bound of stopCount: it was read before the signal was sent);            *)
 (* Exit ~ exited; entered ~ an upper bound of Total (calls that had begun);*)
 (* lines ~ nd; dropped ~ result; agg_returned ~ apc = "done";              *)
-(* forced ~ forced (second signal / timeout, taken from pandora's log).    *)
+(* forced ~ timeout_exit, or another_signal with two signals sent (taken   *)
+(* from pandora's log and the driver's own count of signals).              *)
+(* Runs with fail = TRUE: a second pool ("vfail" provider) fails by itself *)
+(* ~ FailDelivered / RecvErr(err) -> "errwait"; the one signal is sent     *)
+(* when pandora has logged "Awaiting started tasks" ~                      *)
+(* SignalWhileAwaitingTasks; failed_returned_before (written by the        *)
+(* failing provider itself right before it failed) ~ stopCount.            *)
 (***************************************************************************)
 EXTENDS Phout, Json, IOUtils
 
-VARIABLES l, sig, inst, before, bad
-vars == <<l, sig, inst, before, bad>>
+VARIABLES l, sig, inst, fail, before, bad
+vars == <<l, sig, inst, fail, before, bad>>
 
 Trace == ndJsonDeserialize(IOEnv.VERIF_TRACE)
 Ev == Trace[l]
 Flag(cond, name) == IF cond THEN {} ELSE {name}
 
-Init == l = 1 /\ sig = "" /\ inst = 0 /\ before = -1 /\ bad = {}
+Init == l = 1 /\ sig = "" /\ inst = 0 /\ fail = FALSE /\ before = -1 /\ bad = {}
 
 Start == /\ Ev.ev = "Start"
-         /\ sig' = Ev.sig /\ inst' = Ev.inst_total /\ before' = -1 /\ UNCHANGED bad
+         /\ sig' = Ev.sig /\ inst' = Ev.inst_total /\ fail' = Ev.fail /\ before' = -1 /\ UNCHANGED bad
 Signal == /\ Ev.ev = "Signal"
           /\ before' = Ev.returned_before
           /\ bad' = bad \cup Flag(sig = Ev.sig /\ before = -1, "DriverSignalTwice")
-          /\ UNCHANGED <<sig, inst>>
+          /\ UNCHANGED <<sig, inst, fail>>
 Exit == /\ Ev.ev = "Exit"
         /\ bad' = bad \cup
-             (IF Ev.forced THEN {}         \* by design a forced exit does not wait (Shutdown!Forced)
+             \* by design pandora does not wait when its timeout expires or after a SECOND signal (Shutdown!Forced);
+             \* "Another signal received" after ONE signal is not that (Shutdown!SignalWhileAwaitingTasks)
+             (IF Ev.timeout_exit \/ (Ev.another_signal /\ Ev.signals >= 2) THEN {}
+              ELSE IF fail
+              \* one pool failed by itself ~ Shutdown!FailDelivered, main in "errwait"; with or without one signal
+              \* while the started tasks are awaited: everything whose Report had returned before the failure is
+              \* in the flushed, closed output of the other pool
+              THEN Flag(Ev.agg_returned, "ExitedBeforeAggregatorReturned")
+                   \cup Flag(Ev.last_complete, "LastLineTruncated")
+                   \cup Flag(Ev.malformed = 0, "MalformedLine")
+                   \cup Flag(Ev.agg_err = "", "UnexpectedAggregatorError")
+                   \cup Flag(Ev.failed_returned_before >= 0
+                             /\ CompleteBetween(Ev.lines, Ev.dropped, Ev.failed_returned_before, Ev.entered),
+                             "ReportsMadeBeforeTheFailureMissing")
               ELSE Flag(Ev.agg_returned, "ExitedBeforeAggregatorReturned")
                    \cup Flag(Ev.last_complete, "LastLineTruncated")
                    \cup Flag(Ev.malformed = 0, "MalformedLine")
@@ -49,7 +68,7 @@ Exit == /\ Ev.ev = "Exit"
                                    "MoreThanTheShotsInFlightMissing")
                          ELSE Flag(before >= 0 /\ CompleteBetween(Ev.lines, Ev.dropped, before, Ev.entered),
                                    "ReportsMadeBeforeTheSignalMissing")))
-        /\ UNCHANGED <<sig, inst, before>>
+        /\ UNCHANGED <<sig, inst, fail, before>>
 
 Next == /\ l <= Len(Trace)
         /\ l' = l + 1
